@@ -1,7 +1,7 @@
 (* Model constants against the regenerated source facts (coq/Facts/Facts_c18.v).  A fact srcfacts could not
    recognise is None and imposes nothing ("compared only"); a recognised fact must agree. *)
 From Coq Require Import String.
-From Icv Require Import Base.Tac Perm.PmModel Perm.PmObs Perm.PmAttrs Facts.Facts_c18.
+From Icv Require Import Base.Tac Perm.PmModel Perm.PmObs Perm.PmAttrs Perm.PmFieldTables Facts.Facts_c18.
 Local Open Scope Z_scope.
 
 Definition pm_prefix_ok (f : option (list Z)) (p : list Z) : Prop := match f with Some x => x = p | None => True end.
@@ -43,11 +43,6 @@ Lemma pm_source_facts :
 Proof. cbv. repeat split. Qed.
 
 (* ---- round 5: the field tables of the types the object query serialises, regenerated from the .ti files *)
-Definition pm_cur_tables : list (pm_str * pm_ftable) :=
-  map (fun x => (fst x, map pm_field_of_fact (snd x))) f_pm_field_tables.
-Definition pm_cur_table (n : pm_str) : pm_ftable :=
-  match find (fun x => pm_str_eqb (fst x) n) pm_cur_tables with Some x => snd x | None => [] end.
-
 (* what the attribute theorems need of the real tables: a field whose getter returns a config object is an internal
    navigation field (no config / state flag), and field names are unique within a type *)
 Definition pm_cur_tables_check : bool :=
@@ -74,3 +69,17 @@ Proof. split; vm_compute; reflexivity. Qed.
 
 Lemma pm_attr_source_facts : pm_guard_ok f_pm_attrs_hide_in_emit_loop.
 Proof. cbv. exact I || reflexivity. Qed.
+
+(* ---- round 5 (e): the handlers act on the pointers GetFilterTargets returned (no second lookup by name between
+   authorisation and action): the configurations of Perm/PmConc.v that describe this source tree *)
+From Icv Require Import Perm.PmConc.
+Definition pm_ccfg_modify : pm_ccfg := {| pc_lock := true; pc_reresolve := false |}.
+Definition pm_ccfg_delete : pm_ccfg := {| pc_lock := true; pc_reresolve := false |}.
+Definition pm_ccfg_actions : pm_ccfg := {| pc_lock := false; pc_reresolve := false |}.
+Definition pm_ccfg_query : pm_ccfg := {| pc_lock := false; pc_reresolve := false |}.
+Definition pm_reresolve_ok (f : option bool) (c : pm_ccfg) : Prop :=
+  match f with Some b => pc_reresolve c = negb b | None => True end.
+Lemma pm_act_source_facts :
+  pm_reresolve_ok f_pm_query_acts_on_pointer pm_ccfg_query /\ pm_reresolve_ok f_pm_modify_acts_on_pointer pm_ccfg_modify /\
+  pm_reresolve_ok f_pm_delete_acts_on_pointer pm_ccfg_delete /\ pm_reresolve_ok f_pm_actions_acts_on_pointer pm_ccfg_actions.
+Proof. cbv. repeat split. Qed.
